@@ -126,8 +126,51 @@ def main():
             ok = False
         return ok
 
-    def ratios_ok(pops, ens, T, rp, clause_prefix):
-        """populations vs Boltzmann weights of `ens` (internal units)"""
+    observations = []      # one-event traces for specs/ThermalTrace.tla
+    CAP = 5000
+
+    def observe(pops, ens, T, rp, depth=0, same=True, exact=True):
+        """projects one request onto the grid of ThermalState.tla"""
+        pops = numpy.real(numpy.asarray(pops, dtype=complex))
+        ens = numpy.asarray(ens, dtype=float)
+        n = len(ens)
+        if n < 2 or n > 12 or len(pops) != n:
+            return
+        fin = bool(numpy.all(numpy.isfinite(pops)))
+        if T == 0.0:
+            # grid: order-preserving ranks (ties kept), kT unused
+            x = [int(numpy.sum(numpy.unique(ens) < v)) for v in ens]
+            xmin, regime = 0, "zero"
+        else:
+            kt = kB_intK * T
+            rel = (ens - ens.min()) / kt
+            x = [int(min(math.floor(v), CAP)) for v in rel]
+            xm = ens.min() / kt
+            xmin = int(min(max(math.floor(xm), 0), CAP))
+            near = lambda v: abs(v - 745.5) < 2.0
+            if near(rel.max()) or near(xm) or ens.min() < 0:
+                regime = ""                     # too close to a boundary
+            else:
+                part = rel.max() > 745.5
+                allw = xm > 745.5
+                regime = (("partial+all-without-shift" if allw else "partial")
+                          if part else
+                          ("all-underflow-without-shift" if allw else "plain"))
+        pp = numpy.where(numpy.isfinite(pops), pops, 0.0)
+        observations.append(([{
+            "x": [xmin + v for v in x], "zeroT": T == 0.0, "depth": depth,
+            "finite": fin, "exact": bool(exact),
+            "zero": [bool(abs(v) <= (0.0 if exact else 1e-12)) for v in pp],
+            "top": int(numpy.argmax(pp)) + 1,
+            "ge": [[bool(pp[a] >= pp[b]) for b in range(n)]
+                   for a in range(n)],
+            "same": bool(same), "regime": regime}], rp))
+
+    def ratios_ok(pops, ens, T, rp, clause_prefix, exact=True):
+        """populations vs Boltzmann weights of `ens` (internal units);
+        exact: the populations are as the builder computed them (not rotated
+        into the defining basis by the harness)"""
+        observe(pops, ens, T, rp, exact=exact)
         pops = numpy.real(numpy.asarray(pops))
         ens = numpy.asarray(ens, dtype=float)
         if T == 0.0:
@@ -215,7 +258,7 @@ def main():
                                              numpy.abs(off).max())), rp)
                         else:
                             ratios_ok(numpy.diag(dx)[nb0:], ee[nb0:], T, rp,
-                                      key)
+                                      key, exact=False)
                     elif limit == "strong_coupling" and \
                             cond == "thermal_excited_state":
                         off = d_out - numpy.diag(numpy.diag(d_out))
@@ -252,6 +295,13 @@ def main():
                             ck.case("same-state-inside-outside",
                                     (name, T, limit, cname),
                                     sample=dict(rp, contexts=cname, err=e))
+                            if limit == "weak_coupling" and \
+                                    numpy.all(numpy.isfinite(d_in)):
+                                dxi = SS.T.dot(d_in).dot(SS)
+                                observe(numpy.diag(dxi)[nb0:], ee[nb0:], T,
+                                        dict(rp, contexts=cname),
+                                        depth=len(ops), same=e <= 1e-10,
+                                        exact=False)
                             if e > 1e-10:
                                 ck.violation(
                                     "same-state-inside-outside",
@@ -270,7 +320,7 @@ def main():
                 if valid(d, rp, "thermal-rdm"):
                     dx = SS.T.dot(d).dot(SS)
                     ratios_ok(numpy.diag(dx), ee, ag.get_temperature(), rp,
-                              "thermal-rdm:units=" + u)
+                              "thermal-rdm:units=" + u, exact=False)
 
     # ---------------------------------------------------------- molecules
     for gap, T in ((200.0, 300.0), (200.0, 77.0), (50.0, 5.0),
@@ -294,6 +344,47 @@ def main():
                     ratios_ok(numpy.diag(d), [0.0, gap * R.CM2INT], T, rp,
                               "molecule:units=" + ("int" if u == "int"
                                                    else "non-int"))
+
+    # ------------------------------------------------ observations vs the spec
+    by_n = {}
+    for tr, rp in observations:
+        by_n.setdefault(len(tr[0]["x"]), []).append((tr, rp))
+    seen_regimes = set()
+    for n, lst in sorted(by_n.items()):
+        seen_regimes |= {tr[0]["regime"] for tr, _ in lst}
+        rej = ck.validate_traces("ThermalTrace", "ThermalTrace_%d.cfg" % n,
+                                 [tr for tr, _ in lst], invariant=None)
+        if rej:
+            tr, rp = lst[rej["tid"] - 1]
+            ck.violation("observation-conforms-to-ThermalState",
+                         "rejected:" + str(rej["violated"]),
+                         dict(rp, observation=tr[0],
+                              violated=rej["violated"]), rp)
+    if observations and not {"zero", "plain", "partial"} <= seen_regimes:
+        raise MachineryFailure("observations do not reach the regimes of the "
+                               "specification: %s" % sorted(seen_regimes))
+    # negative controls of the binding: corrupted observations are rejected
+    good = {"x": [0, 3, 900], "zeroT": False, "depth": 0, "finite": True,
+            "exact": True,
+            "zero": [False, False, True], "top": 1,
+            "ge": [[True, True, True], [False, True, True],
+                   [False, False, True]], "same": True, "regime": "partial"}
+    n0 = ck.traces_validated
+    if ck.validate_traces("ThermalTrace", "ThermalTrace_3.cfg", [[good]]):
+        raise MachineryFailure("a correct observation is rejected")
+    for field, val, inv in (("zero", [False, False, False], "ObsZeroPattern"),
+                            ("ge", [[True, False, True], [True, True, True],
+                                    [False, False, True]], "ObsOrder"),
+                            ("finite", False, "ObsFinite"),
+                            ("same", False, "ObsSameState"),
+                            ("regime", "plain", "ObsRegime")):
+        bad = dict(good)
+        bad[field] = val
+        rej = ck.validate_traces("ThermalTrace", "ThermalTrace_3.cfg", [[bad]])
+        if not rej or rej["violated"] != inv:
+            raise MachineryFailure("corrupted observation (%s) not rejected "
+                                   "by %s: %s" % (field, inv, rej))
+    ck.traces_validated = n0
 
     ck.assume("underflow threshold of exp() in float64: 745.13; boundary "
               "temperatures E/(745.13 kB) are straddled by +-3 %")
